@@ -90,6 +90,10 @@ def run(rep, tier):
         from . import c07
         c07.r07k(rep_, prog)
         c07.r07t(rep_, prog, only_files=('lex_dijkstra', 'sptrees', 'signed_dijkstra', 'cycles.hpp'))
+        from . import c13
+        for f13 in prog.fns(c13.FN):
+            if not c13.is_forwarder(f13):
+                c13.check_count_width(rep_, prog, f13)
         search.check_combine_types(rep_, prog)
         from . import c16
         c16.shared(rep_, prog)
@@ -100,6 +104,7 @@ def run(rep, tier):
         rep.rule(r_, d_, floor=1)
     rep.rule('R02j', 'the saturating sum of the searches is applied in the distance type (no floating -> integral truncation of weights)', floor=4)
     rep.rule('R07k', 'numeric_limits<T>::infinity() only for floating-point T (0 for integral weight types)', floor=0)
+    rep.rule('R13h', 'the feedback vertex set behind the FVS trees keeps degrees as wide as the graph reports them (a hub of degree 2^16 dropped from the set leaves cycles without a tree: empty cycles are emitted)', floor=1)
     rep.rule('R07t', 'sorted-range algorithms in the tree labels see sorted ranges (inconsistent trees make the isometric variant emit an empty cycle)', floor=1)
     run_rules(rep, tier, RULES, DOCS, extra=extra)
     rep.rule('R01e', 'parity propagation is an exclusive-or with "edge is signed" (trees, signed search, candidate test)', floor=3)
